@@ -21,6 +21,7 @@ DECIDED = [
     "R-C20-ISOLATED (closes): every normal exit of data_received - including exits through its own exception handlers - passes transport.close()",
     "R-C20-PAIR (bounded stop): stop() of the health check server is awaited under a timeout (Server.wait_closed waits for open connections)",
     "R-C20-STATUS-OWN (round 5): RabbitMQ consumer start() raises when basic_consume is not confirmed (a consumer that is not consuming never looks healthy)",
+    "R-C20-AWAITED: in the files this property is anchored in, no bare statement calls a coroutine function (the operation would never run)",
 ]
 NOT_DECIDED = ["the parser on arbitrary bytes as such (exceptions there are contained by the asyncio transport - trusted)", "fragmented valid requests"]
 ASSUMPTIONS = ["asyncio's selector transport catches exceptions raised by Protocol.data_received and closes only that connection"]
@@ -30,6 +31,9 @@ PROTO = "repid.health_check_server._HttpServerProtocol"
 
 
 def run(ctx: Ctx) -> None:
+    from .shared import every_operation_awaited
+
+    every_operation_awaited(ctx, "R-C20-AWAITED")  # in the files this property is anchored in, no asynchronous operation is created and dropped
     status_own(ctx)
     from .brokers import rabbit_start_fails_loudly
 
